@@ -940,16 +940,12 @@ func (vm *VM) throw(err *RuntimeError, noTrace bool) error {
 	}
 
 	vm.frameIndex = index + 1
-
-	if e := vm.handleThrownError(frame, err); e != nil {
-		return e
-	}
-
+	// switch to the handling frame first, handleThrownError may need to
+	// continue the search from there.
 	vm.curFrame = frame
-	vm.curFrame.fn = frame.fn
 	vm.curInsts = frame.fn.Instructions
 
-	return nil
+	return vm.handleThrownError(frame, err)
 }
 
 func (vm *VM) handleThrownError(frame *frame, err *RuntimeError) error {
@@ -964,7 +960,8 @@ func (vm *VM) handleThrownError(frame *frame, err *RuntimeError) error {
 		// error is thrown in the finally block of the handler, it replaces
 		// whatever was pending for the abandoned try statement.
 		frame.errHandlers.pop()
-		return vm.throw(err, false)
+		// position of this frame is already in the trace
+		return vm.throw(err, true)
 	}
 	handler.err = err
 	handler.returnTo = 0
